@@ -112,10 +112,7 @@ func insideOracle(sig string, max int, excl map[string]bool) func(lg *c19Log) []
 
 func c19Plan(quick bool) *FuncPlan {
 	bound := func(q bool) int {
-		if q {
-			return 2
-		}
-		return 3
+		return 2
 	}
 	var scens []*FuncScenario
 	addInside := func(name string, desc []string, nClients, parties, max int, excl map[string]bool, acquire func(cs []*cl.Client, i int) (enter func() error, leave func() error)) {
@@ -299,7 +296,7 @@ func c19Plan(quick bool) *FuncPlan {
 		})})
 	return &FuncPlan{Scens: scens, MaxExec: func(q bool) int64 {
 		if q {
-			return 2500
+			return 500
 		}
 		return 100000
 	}}
